@@ -606,3 +606,70 @@ pub fn drive_simd(out: &mut dyn std::io::Write, seed: u64, thorough: bool, cfg: 
         }
     }
 }
+
+// ------------------------------------------------------------------------------------------------
+// C16: vector byte I/O on slices abutting unmapped pages, on whichever backend the dispatch macro selects
+
+macro_rules! align_io {
+    ($m:ident, $g:ident, $io:ident, $ty:expr, $V:ty, $n:expr, $ld:expr, $st:expr, $rng:ident, $thorough:ident) => {
+        for rep in 0..(if $thorough { 4 } else { 1 }) {
+            let a = $rng.bytes($n);
+            for (place, align) in [("end", 0usize), ("start", 0), ("mid", 1 + rep * 13), ("mid", 31), ("mid", 48 + rep)] {
+                // loads: the slice is the only mapped memory next to the guard page
+                for be in [false, true] {
+                    $g.refill();
+                    $io.call(if be { "read_be" } else { "read_le" }, $ty, place, $n, align);
+                    let (off, s) = $g.place(place, $n, align);
+                    s.copy_from_slice(&a);
+                    let v: $V = if be { $m.read_be(s) } else { $m.read_le(s) };
+                    let o = $st(v);
+                    let mut heap = a.clone();
+                    let r: $V = if be { $m.read_be(&mut heap[..]) } else { $m.read_le(&mut heap[..]) };
+                    let can = { let rw = $g.rw(); rw[off..off + $n] == a[..] } && true;
+                    $io.ret(&o, &$st(r), can, "ok");
+                }
+                for be in [false, true] {
+                    $g.refill();
+                    $io.call(if be { "write_be" } else { "write_le" }, $ty, place, $n, align);
+                    let v: $V = $ld(&a);
+                    let (off, s) = $g.place(place, $n, align);
+                    if be { v.write_be(s) } else { v.write_le(s) }
+                    let o = s.to_vec();
+                    let mut heap = vec![0u8; $n];
+                    if be { v.write_be(&mut heap[..]) } else { v.write_le(&mut heap[..]) }
+                    let can = $g.canary_ok(off, $n);
+                    $io.ret(&o, &heap, can, "ok");
+                }
+            }
+        }
+    };
+}
+
+#[inline(always)]
+fn align_vec_io_impl<M: Machine>(m: M, g: &mut crate::align::Guarded, io: &mut crate::align::VecIo, rng: &mut Rng, thorough: bool) {
+    let ld1 = |b: &Vec<u8>| -> M::u32x4 { m.unpack(s128(b)) };
+    let st1 = |v: M::u32x4| -> Vec<u8> { b128(v.into()) };
+    align_io!(m, g, io, "u32x4", M::u32x4, 16, ld1, st1, rng, thorough);
+    let ld2 = |b: &Vec<u8>| -> M::u32x4x2 { m.unpack(s256(b)) };
+    let st2 = |v: M::u32x4x2| -> Vec<u8> { b256(v.into()) };
+    align_io!(m, g, io, "u32x4x2", M::u32x4x2, 32, ld2, st2, rng, thorough);
+    let ld3 = |b: &Vec<u8>| -> M::u64x2x2 { m.unpack(s256(b)) };
+    let st3 = |v: M::u64x2x2| -> Vec<u8> { b256(v.into()) };
+    align_io!(m, g, io, "u64x2x2", M::u64x2x2, 32, ld3, st3, rng, thorough);
+    let ld4 = |b: &Vec<u8>| -> M::u64x4 { m.unpack(s256(b)) };
+    let st4 = |v: M::u64x4| -> Vec<u8> { b256(v.into()) };
+    align_io!(m, g, io, "u64x4", M::u64x4, 32, ld4, st4, rng, thorough);
+    let ld5 = |b: &Vec<u8>| -> M::u32x4x4 { m.unpack(s512(b)) };
+    let st5 = |v: M::u32x4x4| -> Vec<u8> { b512(v.into()) };
+    align_io!(m, g, io, "u32x4x4", M::u32x4x4, 64, ld5, st5, rng, thorough);
+}
+
+dispatch!(m, Mach, {
+    fn align_vec_io_d(g: &mut crate::align::Guarded, io: &mut crate::align::VecIo, rng: &mut Rng, thorough: bool) {
+        align_vec_io_impl(m, g, io, rng, thorough)
+    }
+});
+
+pub fn align_vec_io(g: &mut crate::align::Guarded, io: &mut crate::align::VecIo, rng: &mut Rng, thorough: bool) {
+    align_vec_io_d(g, io, rng, thorough)
+}
